@@ -59,6 +59,29 @@ def clipFree (radius shape : List Nat) (fuel : Nat) (c : List Int) : Bool :=
     decide (((radius.getD i 0 : Nat) : Int) + (fuel : Int) ≤ c.getD i 0 ∧
             c.getD i 0 + (fuel : Int) ≤ ((shape.getD i 0 : Nat) : Int) - 1 - ((radius.getD i 0 : Nat) : Int)))
 
+/-- `o_i + n_i ≤ N_i` on every axis: the content fits into the canvas at this offset -/
+def fitsB : List Nat → List Nat → List Nat → Bool
+  | N :: Ns, o :: os, n :: ns => decide (o + n ≤ N) && fitsB Ns os ns
+  | [], [], [] => true
+  | _, _, _ => false
+
+/-- decidable check that `big` shows `content` at offset `off` on a black canvas (the relation
+`Find.IsEmbed` of the shift theorems; `isEmbedB_sound` in Proofs/ShiftFind): the content fits, every
+content pixel is found at its shifted place, every other canvas pixel is 0, and the sorted
+non-zero pixels agree.  Evaluated by the driver on every embedded image it builds. -/
+def isEmbedB (content : Find.Image) (off : List Nat) (big : Find.Image) : Bool :=
+  fitsB big.shape off content.shape
+  && (Find.allIdx content.shape).all (fun u => big.pix (addPos u off) == content.pix u)
+  && (Find.allIdx big.shape).all (fun p =>
+        (Find.allIdx content.shape).any (fun u => p == addPos u off) || big.pix p == 0)
+  && Find.sortNat (Find.nonzero big) == Find.sortNat (Find.nonzero content)
+
+/-- decidable check that `imgT` is the transpose of the 2-D image `img` (`Find.IsTranspose`) -/
+def isTransposeB (img imgT : Find.Image) (H W : Nat) : Bool :=
+  img.shape == [H, W] && imgT.shape == [W, H]
+  && (List.range H).all (fun i => (List.range W).all (fun j => imgT.pix [j, i] == img.pix [i, j]))
+  && Find.sortNat (Find.nonzero imgT) == Find.sortNat (Find.nonzero img)
+
 /-! ## locate = the composition of the stage models -/
 
 /-- the arguments of `locate` after feature.py:L316-361 (`validate_tuple`, defaults) -/
